@@ -4,6 +4,7 @@ import EdpVerif.Lemmas.DecCtx
 import EdpVerif.Lemmas.DecNoTrailing
 import EdpVerif.Impl.TableTie
 import EdpVerif.Generated.Misc
+import EdpVerif.Lemmas.Convert
 /-
 C13 — the zero-copy decoder agrees with the owned decoder.
 
@@ -65,6 +66,33 @@ theorem C13_reject_both (x : Ext) (bs : Bytes) (e : DErr) :
   | ok t => rw [C13_agree x bs t hb] at h; simp at h
 
 example : decode Ext.none [131, 0] = .error .err := by evalm
+
+/-! ### clause 1, the conversion itself (`BorrowedTerm::to_owned`, Impl/Convert.lean: borrowed.rs arm by arm) -/
+
+/-- `to_owned` forgets the ownership flags and nothing else: whatever tree the zero-copy decoder built — any term shape,
+any mixture of borrowed and owned `Cow`s (`tagWith t fl`: the tree with structural image `t` and flags `fl`), maps being
+`BTreeMap`s (`btreeSorted`) — converting it gives exactly the term it is the image of -/
+theorem C13_to_owned_forgets_ownership (t : Term) (fl : List Bool) (h : btreeSorted t = true) :
+    erase (tagWith t fl).1 = t ∧ toOwned (tagWith t fl).1 = t :=
+  ⟨erase_tagWith t fl, toOwned_tagWith t fl h⟩
+
+example : toOwned (tagWith (.tuple [.atom [97], .bin [1], .map [(.atom [98], .str [99])]]) [true, false, false, true]).1 =
+    .tuple [.atom [97], .bin [1], .map [(.atom [98], .str [99])]] :=
+  (C13_to_owned_forgets_ownership _ _ (by simp [btreeSorted, btreeSortedL, btreeSortedKV, pairwiseLt, allLt])).2
+
+/-- clause 1 with the conversion spelled out: on every input the zero-copy decoder accepts with a tree whose image is `t`,
+whatever that tree borrows and whatever it owns, `to_owned` of the tree is exactly the term the owned decoder returns -/
+theorem C13_agree_converted (x : Ext) (bs : Bytes) (t : Term) (fl : List Bool) (hm : btreeSorted t = true) :
+    decodeBorrowed x bs = .ok t → decode x bs = .ok (toOwned (tagWith t fl).1) := by
+  intro h
+  rw [toOwned_tagWith t fl hm]
+  exact C13_agree x bs t h
+
+/-- `is_borrowed` answers whether some `Cow` of the tree is borrowed: every tree -/
+theorem C13_is_borrowed_iff_some_flag (b : BTerm) : isBorrowed b = (flagsOf b).any id := isBorrowed_flags b
+
+example : isBorrowed (.tuple [.atom false [97], .list [.bin true [1]]]) = true := by
+  rw [C13_is_borrowed_iff_some_flag]; rfl
 
 /-! ### clause 2 — acceptance on modern-tag inputs -/
 
